@@ -307,12 +307,19 @@ pub fn shrink(
     let mut evals = 0usize;
     let order = [3usize, 4, 1, 2, 0];
     let mut progress = true;
+    // wall-clock guard: `budget` counts evaluations, but one evaluation can be slow
+    let started = Instant::now();
+    let wall_limit = if budget > 2000 { 180.0 } else { 45.0 };
+    let mut budget = budget;
     while progress && evals < budget {
+        if started.elapsed().as_secs_f64() > wall_limit {
+            budget = evals;
+        }
         progress = false;
         for &ti in &order {
             // 1. drop the tail (replay reads 0 past the end: "the simplest choice")
             let mut cut = best[ti].len() / 2;
-            while cut > 0 && evals < budget {
+            while cut > 0 && evals < budget && started.elapsed().as_secs_f64() <= wall_limit {
                 let keep = best[ti].len().saturating_sub(cut);
                 let mut cand = best.clone();
                 cand[ti].truncate(keep);
@@ -328,7 +335,7 @@ pub fn shrink(
             // 2. delete blocks
             for block in [8usize, 4, 2, 1] {
                 let mut i = 0;
-                while i + block <= best[ti].len() && evals < budget {
+                while i + block <= best[ti].len() && evals < budget && started.elapsed().as_secs_f64() <= wall_limit {
                     let mut cand = best.clone();
                     cand[ti].drain(i..i + block);
                     evals += 1;
@@ -342,7 +349,7 @@ pub fn shrink(
             }
             // 3. zero, then halve, individual values
             let mut i = 0;
-            while i < best[ti].len() && evals < budget {
+            while i < best[ti].len() && evals < budget && started.elapsed().as_secs_f64() <= wall_limit {
                 if best[ti][i] != 0 {
                     let mut cand = best.clone();
                     cand[ti][i] = 0;
@@ -374,7 +381,7 @@ pub fn shrink(
 fn render_case(prop: &str, tapes: &[Vec<u32>; 5]) -> serde_json::Value {
     // Rebuild the workload from the tapes for a human-readable rendering.
     let mut t = Tapes::replaying(tapes);
-    let bias_tags = matches!(prop, "C04" | "C05") && t.query.draw(2) == 1;
+    let bias_tags = crate::runner::wants_tag_bias(prop) && t.query.draw(2) == 1;
     match crate::runner::build_workload_biased(&mut t, prop == "C22", bias_tags) {
         Ok(w) => w.render(),
         Err(_) => serde_json::json!({"note": "workload could not be rebuilt for rendering"}),
@@ -443,18 +450,18 @@ struct TierCfg {
 fn tier_cfg(prop: &str, tier: &str) -> TierCfg {
     let quick = tier != "thorough";
     let base: u64 = match prop {
-        "C03" => 120_000,
-        "C02" => 150_000,
-        "C22" | "C23" => 300_000,
-        "C15" => 120_000,
+        "C03" => 400_000,
+        "C02" => 600_000,
+        "C22" | "C23" => 1_200_000,
+        "C15" => 150_000,
         "C25" => 800,
-        "C20" => 4_000,
-        _ => 250_000,
+        "C20" => 8_000,
+        _ => 1_000_000,
     };
     if quick {
         TierCfg { runs: base, wall_cap_s: 240.0 }
     } else {
-        TierCfg { runs: base * 40, wall_cap_s: 1500.0 }
+        TierCfg { runs: base * 20, wall_cap_s: 1500.0 }
     }
 }
 
